@@ -52,6 +52,60 @@ CLAIMED = {
    note="Partial: the connection-level half (one ERR / close) is checked on the implementation here and proved over the connection "
         "machine in C03/C10; work inside sqlglot and the codecs is not bounded by this proof.",
    technique="Coq proof (fuel-exclusion lemmas by induction on fuel) + translator facts + vm_compute correspondence + watchdog/scaling probes"),
+ "C01": dict(
+   text="Connection machine Model/Conn.v (lock-step validated against the real Connection at suspension-point granularity). Proved: "
+        "a refusal (unknown user, forbidden, provider/plugin failure, unparsable response) at the first verdict or after auth-switch / "
+        "more-data round trips finishes the connection with the session never initialised and nothing served, and for EVERY "
+        "continuation of the client the outcome is identical (finished state is absorbing: nothing called, nothing written); the same "
+        "for a refused or aborted COM_CHANGE_USER (only session.close follows). Tie: skeletons of authenticate/_start/"
+        "handle_change_user regenerated; random walks with scripted identity providers/plugins replayed on the model; oracle on the "
+        "implementation: no session call / non-ERR packet after a refused exchange.",
+   design="7/C01",
+   note="Partial: the theorems quantify over all continuations but over an enumerated family of exchange prefixes (computed in Coq); the "
+        "invariant over arbitrary histories is carried by the lock-step runs. Plugins are arbitrary decision sequences (C02 decides "
+        "what the built-in plugins decide).",
+   technique="Coq proof (absorbing-state lemma + vm_compute over exchange prefixes) + translator facts + lock-step correspondence"),
+ "C03": dict(
+   text="Proved: for every column count, row list and DEPRECATE_EOF setting the packets written by the handler plans of Model/Conn.v "
+        "(text result set, binary result set, cursor open, prepare block, fetch, field list) are accepted by the protocol grammar "
+        "Model/Resp.v (written from the protocol documentation); a response cut at ANY point and completed by one ERR is accepted; "
+        "nothing can follow a complete response; the no-reply commands write nothing. Tie: lock-step replay of random command "
+        "programs on the model, and every implementation response is run through the grammar inside Coq.",
+   design="7/C03",
+   note="Partial: the composition 'between two reads the machine emits exactly the plan packets plus at most one ERR' is validated by the "
+        "lock-step runs, not yet a theorem over all event lists. Packet contents beyond kind/flags/counts are C05/C16.",
+   technique="Coq proof (induction over column/row lists, automaton sink-state argument) + translator facts + lock-step correspondence"),
+ "C09": dict(
+   text="Proved for EVERY state of Model/Conn.v: KILL QUERY with no command in progress (idle, connection phase, shutdown, "
+        "re-authentication), from the connection's own callback, or after a pending KILL CONNECTION is the identity; any event on a "
+        "finished connection is the identity; whatever kills arrive in any order session.close happens at most once (C10 invariant). "
+        "Computed in Coq: a kill of either kind before every event of a reference conversation. Tie: one and two kills at every "
+        "script position of a reference program on the real connection + random walks, replayed on the model; grammar oracle.",
+   design="7/C09",
+   note="Known open finding (kill-after-terminal-packet) recorded with its refutation theorem c09_kill_query_after_terminal_packet_refuted. "
+        "Socket back-pressure is the fake writer's paused flag.",
+   technique="Coq proof (state-independent lemmas + invariant by induction over event lists + vm_compute placements) + lock-step correspondence"),
+ "C10": dict(
+   text="Proved for EVERY event list (commands, clean / mid-packet disconnects, bad sequence ids, socket failures, pauses, kills, "
+        "application results and exceptions from any callback, in any order): session.close is called at most once and only for an "
+        "initialised session; when the task has ended it was called exactly once iff the session was initialised; while the task is "
+        "alive the count is 0 outside and 1 inside the finally block; writer.close and control.remove are emitted exactly once, "
+        "exactly when the task ends. Tie: life-cycle skeletons regenerated; disconnect / failure / exception at every script position "
+        "of a reference conversation and pairs, replayed on the model; life-cycle oracle on the implementation.",
+   design="7/C10",
+   note="Fuel exhaustion of the model (state Stuck) is covered by a weaker invariant (close at most once); that Stuck is never reached is "
+        "validated by the correspondence runs, not proved. 'Socket closed' is writer.close() on the fake writer.",
+   technique="Coq proof (per-frame invariant lifted through throw/exec_op/end_plan, induction on fuel and over the event list) + lock-step correspondence"),
+ "C11": dict(
+   text="Proved for every result (rows, waits, a raising source), every fetch size and every sequence of fetch sizes: one fetch writes the "
+        "next min(want, rows left) rows in order and pulls exactly those; the concatenation of all fetches is the prefix "
+        "0..min(total requested, rows)-1 of the result; last-row-sent is flagged exactly on a fetch that could not be filled; the "
+        "packets form a response of the grammar. Tie: exhaustive n<=4/6 x all fetch-size sequences, random programs with several "
+        "statements, reset / re-execute / close anywhere, replayed on Model/Conn.v.",
+   design="7/C11",
+   note="Rows are recognised by the index the scripted source writes into them; independence of cursors of different statements is "
+        "validated by the lock-step runs.",
+   technique="Coq proof (induction over the cursor's item list and over the list of fetch sizes) + translator facts + lock-step correspondence"),
 }
 
 PENDING = {}
